@@ -19,6 +19,16 @@ class Unpicklable:
         raise ValueError("cannot pickle %s" % self.tag)
 
 
+class UnpicklableOS:
+    """pickling it fails with an OSError (e.g. a file-backed argument whose file vanished)"""
+
+    def __init__(self, tag):
+        self.tag = tag
+
+    def __reduce__(self):
+        raise FileNotFoundError(2, "No such file or directory: %s" % self.tag)
+
+
 class UnpicklableError(Exception):
     def __init__(self, tag="x"):
         Exception.__init__(self, tag)
